@@ -25,6 +25,7 @@ CONSTANTS Funcs,        \* ordinary analysis functions
           Unseeded,     \* random by design, no seed parameter (bump): result unconstrained, consumes rng
           Params,       \* explicit parameter values, "dflt" is added
           Sigs,         \* type signatures
+          Alphabet,     \* the calls that may occur: a subset of Calls (Calls itself for the exhaustive model)
           Threads, MAXLEN, MUT
 
 AllF == Funcs \cup Gens \cup Unseeded
@@ -36,7 +37,7 @@ VARIABLES hist, outs, jit, cache, defaults, tables, rng, last
 vars == <<hist, outs, jit, cache, defaults, tables, rng, last>>
 
 Eff(p) == IF p = "dflt" THEN D0 ELSE p
-Fresh(c) == <<c.f, Eff(c.p), c.sig>>
+Fresh(c) == <<c.f, <<Eff(c.p), {}>>, c.sig>>      \* <<function, <<parameter, hidden state read>>, signature>>
 
 Init == /\ hist = <<>> /\ outs = <<>>
         /\ jit = [f \in AllF |-> {}]
@@ -51,17 +52,17 @@ Captured(f, sig) == IF \E i \in 1..Len(cache[f]) : cache[f][i][1] = sig
 
 \* what the implementation returns in the current hidden state
 Impl(c) ==
-  CASE MUT = "stale_closure" /\ c.f \in Funcs /\ Captured(c.f, c.sig) # "none" -> {<<c.f, Captured(c.f, c.sig), c.sig>>}
+  CASE MUT = "stale_closure" /\ c.f \in Funcs /\ Captured(c.f, c.sig) # "none" -> {<<c.f, <<Captured(c.f, c.sig), {}>>, c.sig>>}
     [] MUT = "mutable_default" /\ c.p = "dflt" /\ defaults[c.f] # {} -> {<<c.f, <<D0, defaults[c.f]>>, c.sig>>}
     [] MUT = "table_pop" /\ c.p = "dflt" /\ c.f \in Funcs /\ tables # {"k1", "k2"} -> {<<c.f, <<D0, tables>>, c.sig>>}
-    [] MUT = "rng_no_reseed" /\ c.f \in Gens /\ rng # 0 -> {<<c.f, <<Eff(c.p), rng>>, c.sig>>}
-    [] MUT = "race" /\ Threads > 1 /\ c.f \in Funcs -> {Fresh(c), <<"torn">>}
+    [] MUT = "rng_no_reseed" /\ c.f \in Gens /\ rng # 0 -> {<<c.f, <<Eff(c.p), {ToString(rng)}>>, c.sig>>}
+    [] MUT = "race" /\ Threads > 1 /\ c.f \in Funcs -> {Fresh(c), <<c.f, <<"torn", {}>>, c.sig>>}
     [] OTHER -> {Fresh(c)}
 
 Call(c) ==
   /\ Len(hist) < MAXLEN
   /\ hist' = Append(hist, c)
-  /\ \E r \in (IF c.f \in Unseeded THEN {<<c.f, "random", rng>>} ELSE Impl(c)) :
+  /\ \E r \in (IF c.f \in Unseeded THEN {<<c.f, <<"random", {ToString(rng)}>>, c.sig>>} ELSE Impl(c)) :
         /\ last' = r /\ outs' = Append(outs, r)
   /\ jit' = [jit EXCEPT ![c.f] = @ \cup {c.sig}]
   /\ cache' = IF Captured(c.f, c.sig) = "none" THEN [cache EXCEPT ![c.f] = Append(@, <<c.sig, Eff(c.p)>>)] ELSE cache
@@ -70,7 +71,7 @@ Call(c) ==
   /\ rng' = IF c.f \in Gens /\ MUT # "rng_no_reseed" THEN 100 + Len(hist)     \* re-seeded: a function of the call only
             ELSE IF c.f \in Gens \cup Unseeded THEN rng + 1 ELSE rng
 
-Next == \E c \in Calls : Call(c)
+Next == \E c \in Alphabet : Call(c)
 Spec == Init /\ [][Next]_vars
 
 \* ------------------------------------------------------------------ properties
@@ -90,5 +91,7 @@ RepeatIdempotent == \A i, j \in 1..Len(hist) : hist[i] = hist[j] /\ hist[i].f \n
 DefaultIsExplicit == \A i, j \in 1..Len(hist) :
                         (/\ hist[i].f = hist[j].f /\ hist[i].sig = hist[j].sig /\ hist[i].f \notin Unseeded
                          /\ Eff(hist[i].p) = Eff(hist[j].p)) => outs[i] = outs[j]
-TypeOK == Len(hist) = Len(outs) /\ Len(hist) <= MAXLEN
+TypeOK == Len(hist) = Len(outs) /\ Len(hist) <= MAXLEN /\ Alphabet \subseteq Calls
+\* hook for the harness: every complete history of the exhaustive enumeration is printed
+Dump == Len(hist) = MAXLEN => PrintT(<<"HIST", [i \in 1..Len(hist) |-> <<hist[i].f, hist[i].p, hist[i].sig>>]>>)
 =============================================================================
